@@ -70,8 +70,10 @@ class Purity:
         self.prog = prog
         self.memo = {}
 
-    def callee_pure(self, caller, call, depth=0):
-        """(pure?, reason)"""
+    def callee_pure(self, caller, call, depth=0, loc=None, ptr_like=()):
+        """(pure?, reason).  When `loc` (the caller's by-value locals) is given,
+        a library callee that takes a mutable pointer/reference is still pure
+        for the outside world if every such argument designates a local."""
         key = call.get("fn")
         if not key:
             return False, "indirect call"
@@ -98,13 +100,36 @@ class Purity:
                 return False, "%s::operator[] inserts a missing key" % cls
             if name in NONMUTATING:
                 return True, ""
+            if loc is not None:
+                rcv = call_receiver_of(call)
+                if rcv is not None and self._local_object(caller, rcv, depth, loc, ptr_like):
+                    # a mutating member of a local object; its other arguments are values
+                    return True, ""
             return False, "non-const library member %s" % q
         params = info.get("params", [])
-        for p in params:
+        args = call_args(call)
+        if call.get("k") == "CXXOperatorCallExpr" and info.get("method"):
+            args = args[1:]
+        for i, p in enumerate(params):
             p = notpl(p)
             if ("*" in p or "&" in p) and not _points_to_const(p):
+                if loc is not None and i < len(args) and self._local_object(caller, args[i], depth, loc, ptr_like):
+                    continue
                 return False, "library function %s takes a mutable pointer/reference (%s)" % (q, p)
         return True, ""
+
+    def _local_object(self, caller, e, depth, loc, ptr_like):
+        """The expression designates an object local to the caller: a by-value
+        local, or the result of a (locally pure) call chained on one, such as
+        `os << a` for a local stream os."""
+        root = flow.lvalue_root(e)
+        if root is not None:
+            return root in loc and root not in ptr_like
+        inner = strip_all(e)
+        if inner is not None and is_call(inner) and depth < 40:
+            ok, _ = self.callee_pure(caller, inner, depth + 1, loc, ptr_like)
+            return ok
+        return False
 
     def body_pure(self, f, depth=0):
         if f.uid in self.memo:
@@ -156,10 +181,20 @@ class Purity:
             if k in ("CXXNewExpr", "CXXDeleteExpr"):
                 return False, "%s allocates/frees (%s)" % (f.qn, f.loc(n))
             if is_call(n) and k != "CXXConstructExpr":
-                ok, why = self.callee_pure(f, n, depth)
+                ok, why = self.callee_pure(f, n, depth, loc, ptr_like)
                 if not ok:
                     return False, "%s -> %s" % (f.qn, why)
         return True, ""
+
+
+def call_receiver_of(call):
+    if call.get("k") == "CXXOperatorCallExpr" and len(call.get("c", [])) > 1:
+        return call["c"][1]
+    if call.get("k") == "CXXMemberCallExpr":
+        callee = strip(call["c"][0])
+        if callee is not None and callee.get("k") == "MemberExpr" and callee.get("c"):
+            return callee["c"][0]
+    return None
 
 
 def _points_to_const(t):
